@@ -610,7 +610,7 @@ pub fn run_dns(sc: &DnsScenario) -> Outcome {
             }
             DnsOp::Literal(i) => {
                 let lit: IpAddr = if sc.v6 {
-                    format!("fe80::{:x}", *i as u32 + 1).parse().unwrap()
+                    format!("fe80::{:x}:{:x}", (*i as u32 + 1) >> 16, (*i as u32 + 1) & 0xffff).parse().unwrap()
                 } else {
                     format!("192.168.{}.{}", i / 256, i % 256).parse().unwrap()
                 };
